@@ -123,6 +123,16 @@ fn c13b_sequence_v264() { sequence_bc(264) }
 #[kani::stub(std::fmt::format, vio::fmt_stub)]
 #[kani::unwind(8)]
 fn c13b_sequence_v272() { sequence_bc(272) }
+// version numbers right behind the layout switch of M2Model::write (`header.version <= 256`): the record codec must
+// switch at the same number as the model writer that sizes the records
+#[kani::proof]
+#[kani::stub(std::fmt::format, vio::fmt_stub)]
+#[kani::unwind(8)]
+fn c13b_sequence_v257() { sequence_bc(257) }
+#[kani::proof]
+#[kani::stub(std::fmt::format, vio::fmt_stub)]
+#[kani::unwind(8)]
+fn c13b_sequence_v259() { sequence_bc(259) }
 
 /// API direction: a sequence built with the fields of one layout and written in the other layout
 /// (what version conversion does: M2Animation::convert is the identity) still has the size the writer assumes
